@@ -40,7 +40,8 @@ def run(tier, rep, work):
                                  dict(property="C06", tier=tier, seed=C.seed(), part=drv, event_index=rj["event_index"], event=json.loads(rj["event"]),
                                       history=[json.loads(x) for x in rj["history"]][:60], what="leaf index behaviour refused by its specification"))
             rep.violation(path, "%s: the specification refuses event %d: %s" % (drv, rj["event_index"], rj["event"][:400]))
-    rep.cov["exhaustive"] = True
+    rep.cov["exhaustive"] = False
+    rep.cov["exhaustive_scope"] = "write histories enumerated completely by TLC, a stride replayed (1 in 3 in the thorough tier)"
     rep.cov["rule"] = ("Hybrid clause: TLC enumerates every history of Add / failing Add (wrong dimension in the 1st sub-index, unsupported metadata value in the 3rd) / Remove (incl. unknown and already "
                        "removed ids) / re-add / Flush / Reload up to 4 operations; a stride is replayed on real hybrid indexes; after EVERY write the three sub-indexes are searched on their own and must hold "
                        "exactly what docInfo says (event 'sub'), ids returned by Add must be fresh. Per-index clause: the histories of VecMC that remove (and re-add, with a flush before / between / after) are "
